@@ -115,8 +115,13 @@ def gen_history(rng, base):
         elif k < 0.75:
             ops.append(['set_supported', rng.choice(fresh_id + [b[0] for b in rng.sample(base, 2)]),
                         rng.choice(fresh_p + [b[1] for b in rng.sample(base, 1)]), True])   # legacy: edit dict, initglobals()
-        elif k < 0.85:
+        elif k < 0.82:
             ops.append(['init', rng.random() < 0.5])
+        elif k < 0.9:
+            b = rng.choice(base)
+            ops.append(['replace', rng.randrange(0, 10 ** 6), rng.choice([[b[0], b[1], not b[2]], [rng.choice(fresh_id), b[1], b[2]], [b[0], rng.choice(fresh_p), True]])])
+        elif k < 0.93:
+            ops.append(['rebind'])
         else:
             ops.append(['remove', rng.randrange(0, 10 ** 6), True])
     return ops
@@ -126,6 +131,7 @@ def run_history(chk, base, ops, suite='history'):
     """Runs one history on impl (mutating the module in place, restored afterwards) and on the model."""
     import minecraft as mc
     saved = list(mc.KNOWN_MINECRAFT_VERSION_RECORDS)
+    saved_obj = mc.KNOWN_MINECRAFT_VERSION_RECORDS
     import types
     held = types.SimpleNamespace(**{t: getattr(mc, t) for t in TABLES})       # what `from minecraft import <table>` gave another module
     try:
@@ -148,6 +154,16 @@ def run_history(chk, base, ops, suite='history'):
                 recs[pos:pos] = [list(x) for x in new]
                 mc.KNOWN_MINECRAFT_VERSION_RECORDS[pos:pos] = [mc.Version(*x) for x in new]
                 use = known_mode
+            elif op[0] == 'replace':
+                # one record edited in place (support switched on or off, renamed, renumbered): length and neighbours unchanged
+                pos = op[1] % len(recs)
+                recs[pos] = list(op[2])
+                mc.KNOWN_MINECRAFT_VERSION_RECORDS[pos] = mc.Version(*op[2])
+                use = True
+            elif op[0] == 'rebind':
+                # the module attribute is given a new list object with the same records (the library user "updates" the name)
+                mc.KNOWN_MINECRAFT_VERSION_RECORDS = list(mc.KNOWN_MINECRAFT_VERSION_RECORDS)
+                use = True
             elif op[0] == 'remove':
                 if len(recs) > 1:
                     pos = op[1] % len(recs)
@@ -223,6 +239,7 @@ def run_history(chk, base, ops, suite='history'):
                                     op[0], use, p, q, q, kp[-1], [g[1] for g in got], a, b))
         return None
     finally:
+        mc.KNOWN_MINECRAFT_VERSION_RECORDS = saved_obj
         mc.KNOWN_MINECRAFT_VERSION_RECORDS[:] = saved
         mc.initglobals(use_known_records=True)
 
@@ -254,7 +271,7 @@ def check_histories(chk):
         cases.append([0 if base is small else 1, gen_history(chk.rng, base)])
     for which, ops in cases:
         base = shipped if which else small
-        chk.count('history', [which, ops], any(o[0] in ('extend', 'set_supported', 'remove') for o in ops))
+        chk.count('history', [which, ops], any(o[0] in ('extend', 'set_supported', 'remove', 'replace') for o in ops))
         for o in ops:
             chk.tally('history:op:' + o[0])
         bad = run_history(chk, base, ops)
